@@ -116,7 +116,7 @@ PROPS = {
         stubs=['BufReader<ZipFile> byte source -> KSrc(&[u8]) (overlay substitution, 2 sites; RecordIter::from_zip cut off)', 'encoding_rs::Encoding::decode -> model_utf16_decode in the string shapes'],
         bounds={'framing': 'ids: all 2-byte prefixes; lengths: 1..=2 prefix bytes quick (3,4 thorough), payload <= 3 bytes', 'cells': 'one cell record per kind after a row header, optional ignorable record (BrtCellBlank or a 2-byte-id record) in between; strings of 1..=2 chars; rows <= 1048575',
                 'tables': '3-entry format and shared-string tables'},
-        outside=['everything that needs ZipArchive (read_shared_strings, read_workbook, styles)', 'XlsbCellsReader::new (dimension / block skipping)', 'RK x100 values that are not multiples of 100 in quick (f64 division)', 'records longer than 127 bytes in quick'],
+        outside=['everything that needs ZipArchive (read_shared_strings, read_workbook, styles)', 'XlsbCellsReader::new (dimension / block skipping)', 'several cell records read by successive next_cell calls on one reader (harnesses c03_x_row_change / c03_x_two_rows exceed 900 s; one call per query only)', 'RK x100 values that are not multiples of 100 in quick (f64 division)', 'records longer than 127 bytes in quick'],
         assumptions=['shared-string / style indices inside the tables (out-of-range: hostile input, C06)'],
     ),
     'C04': dict(
@@ -214,6 +214,7 @@ RULES = [
     (r'^c08_', dict(arena=256, timeout=300, mem_gb=12.0)),
     (r'^c03_', dict(arena=64)),
     (r'^c03_[qt]_fill_buffer', dict(arena=256)),
+    (r'^c03_t_(row_change|two_rows)', dict(unwindset={'4KSrc': 14})),
     (r'^c13_[qt]_(chain|cutoff|stream|twin)', dict(arena=64)),
     (r'^c13_[qt]_header', dict(arena=512)),
     (r'^c13_q_cutoff', dict(min_covers=2)),
